@@ -90,7 +90,8 @@ def gen_call(rng):
         args = [rng.choice(STRINGS), rng.choice(STRINGS)]
     elif f == "substring":
         s = rng.choice(STRINGS)
-        args = [s, rng.choice([0, 1, 2, len(s), len(s) + 1, 65535]), rng.choice([0, 1, 2, len(s), len(s) + 1, 65535])]
+        args = [s, rng.choice([0, 1, 2, len(s), len(s) + 1, 65535, 32767, 32766, 16384, 32768]),
+                rng.choice([0, 1, 2, len(s), len(s) + 1, 65535, 32767, 32766, 16384, 32768])]
     else:
         # small requests, requests that exhaust the heap on the first or on the second call, requests that wrap
         args = [rng.choice([0, 1, 2, 5, 100, 0x3FFE, 0x3FFF, 0x4000, 0x7000, 0x7FFD, 0x7FFE, 0x7FFF, 0x8000, 0xBFFE, 0xBFFF,
@@ -137,6 +138,11 @@ def oracle(rng, conv, f, args):
         s = sc.read_string(vm, got)
         if s != want[1]:
             return "%s returns the string %r, expected %r" % (what, s, want[1])
+        nxt = vm.load_memory(0x4000)
+        if got > 0x4000 and nxt < got + 1 + len(want[1]):
+            # seed C19h: chr asked malloc for one cell and wrote two
+            return ("%s returns a string in cells %d..%d, but the allocator's next free cell is %d: the next block handed out "
+                    "overlaps the string" % (what, got, got + len(want[1]), nxt))
     elif want and want[0] == "sign":
         g = sc.s16(got)
         if (g > 0) - (g < 0) != want[1]:
@@ -154,13 +160,15 @@ ROUTINES = {("reg", "size"): lambda b: "size_reg_code", ("reg", "ord"): lambda b
             ("stack", "size"): lambda b: "size_stack_code", ("stack", "ord"): lambda b: "ord_stack_code",
             ("stack", "not"): lambda b: "(not_stack_code %d)" % b,
             ("stack", "malloc"): lambda b: "(malloc_stack_code %d)" % b,
-            ("stack", "tstdlib_label_local_memcpy_reg"): lambda b: "(memcpy_code %d)" % b}
+            ("stack", "tstdlib_label_local_memcpy_reg"): lambda b: "(memcpy_code %d)" % b,
+            # chr calls malloc: its instruction list depends on where malloc is loaded
+            ("reg", "chr"): lambda b, mb: "(chr_reg_code %d)" % mb}
 RHEADER = """From Coq Require Import ZArith List.
 From Hera.Lib Require Import Py Machine.
 From Hera.Gen Require Import Ops.
 From Hera.Spec Require Import ISA.
 From Hera.Model Require Import InstrOf.
-From Hera.Proofs Require Import C19_Routines C19_Not C19_Stack C19_NotStack C19_Malloc C19_MallocStack C19_Memcpy.
+From Hera.Proofs Require Import C19_Routines C19_Not C19_Stack C19_NotStack C19_Malloc C19_MallocStack C19_Memcpy C19_Chr.
 Import ListNotations.
 Open Scope Z_scope.
 Definition keyof (p : opname * list Z) : list Z := match instr_of (fst p) (snd p) with Some i => instr_key i | None => [] end.
@@ -206,22 +214,75 @@ def routine_correspondence(disagreements):
                 disagreements.append({"what": "routine %s/%s: %s" % (conv, name, got)})
                 break
             base, ops = got
+            if const.__code__.co_argcount == 2:
+                with contextlib.redirect_stdout(io.StringIO()), contextlib.redirect_stderr(io.StringIO()):
+                    mgot = real_routine(conv, "malloc", pad)
+                if isinstance(mgot, str):
+                    disagreements.append({"what": "routine %s/malloc: %s" % (conv, mgot)})
+                    break
+                cterm = const(base, mgot[0])
+            else:
+                cterm = const(base)
             term = "[%s]" % "; ".join("(O_%s, [%s])" % (ec.cname_ident(c), "; ".join(z(a) for a in args)) for c, args in ops)
             outs = coqrun.eval_cases("C19r_%s_%s_%d" % (conv, name, pad), RHEADER,
-                                     ["flat (map keyof %s)" % term, "flat (map instr_key %s)" % const(base)], shard=10)
+                                     ["flat (map keyof %s)" % term, "flat (map instr_key %s)" % cterm], shard=10)
             n += 1
             if outs[0] != outs[1] or 0 in outs[0][:1] or not outs[0]:
                 disagreements.append({"what": "the %s-convention library routine %s (loaded at %d) is no longer the instruction list %s "
-                                              "of the C19 routine theorems" % (conv, name, base, const(base)),
+                                              "of the C19 routine theorems" % (conv, name, base, cterm),
                                       "impl": ops, "impl_keys": outs[0], "model_keys": outs[1]})
                 break
     return n
+
+
+def getchar_program(conv, n):
+    lines = ["DLABEL(results)", "DSKIP(%d)" % n, "#include <Tiger-stdlib-%s-data.hera>" % conv, "CBON()"]
+    for k in range(n):
+        lines.append("MOVE(R12, SP)")
+        if conv == "stack":
+            lines += ["INC(SP, 3)", "CALL(R12, getchar_ord)", "LOAD(R1, 3, R12)", "DEC(SP, 3)"]
+        else:
+            lines.append("CALL(R12, getchar_ord)")
+        lines += ["SET(R11, results)", "STORE(R1, %d, R11)" % k]
+    lines += ["SET(R11, 0x7e57)", "HALT()", "#include <Tiger-stdlib-%s.hera>" % conv]
+    return "\n".join(lines) + "\n"
+
+
+def getchar_oracle(conv, stdin, n):
+    """getchar_ord called n times reads standard input character by character, line after line (line ends are not
+    delivered; an empty line and the end of input read as 0).  D58: the read position was not restarted with a new line."""
+    want = []
+    for l in stdin.split("\n")[:-1] if stdin.endswith("\n") else stdin.split("\n"):
+        want += [ord(c) & 0xFFFF for c in l] or [0]
+    want = (want + [0] * n)[:n]
+    r = sc.run(getchar_program(conv, n), stdin=stdin)
+    what = "%s getchar_ord x %d on input %r" % (conv, n, stdin)
+    if "raise" in r:
+        return "%s: %s" % (what, r["raise"])
+    if "rror" in r["err"] or r["vm"].registers[11] != 0x7e57:
+        return "%s stops with %r" % (what, r["err"][:150])
+    res = int(r["symbols"]["results"])
+    got = [r["vm"].load_memory(res + k) for k in range(n)]
+    if got != want:
+        return "%s reads %r, expected %r" % (what, got, want)
+    return None
 
 
 def known_replays(ctx, findings):
     """D45: the stack-convention getline does not return to its caller."""
     out = []
     for e in findings:
+        if e["id"] == "D58":
+            bad = None
+            for conv in ("reg", "stack"):
+                bad = bad or getchar_oracle(conv, e["stdin"], 6)
+            out.append((e, bad is not None, bad))
+            continue
+        if e["id"] == "D62":
+            conv, f, args = e["call"]
+            bad = oracle(ctx.rng, conv, f, args)
+            out.append((e, bad is not None, bad))
+            continue
         if e["id"] != "D45":
             continue
         r = sc.run(sc.program("stack", "getline", [], {k: k for k in range(1, 11)}), stdin="abc\n")
@@ -258,6 +319,17 @@ def correspondence(ctx, model_available=True):
     r = sc.run(sc.program("stack", "getline", [], {k: k for k in range(1, 11)}), stdin="abc\n")
     if "raise" in r or r["vm"].registers[11] != 0x7e57:
         spec_failures.append({"what": "stack getline does not return to its caller", "function": "getline", "known_id": "D45"})
+    # getchar_ord over several input lines
+    for _ in range(12 if quick else 200):
+        stdin = "".join(rng.choice(["", "a", "ab", "xyz", "hello", "\x01~"]) + "\n" for _ in range(rng.choice([1, 2, 3, 4])))
+        if rng.random() < 0.2:
+            stdin = stdin[:-1]
+        for conv in ("stack", "reg"):
+            p = getchar_oracle(conv, stdin, rng.choice([1, 3, 6, 9]))
+            st["calls"] += 1
+            st["by_function"]["getchar_ord"] = st["by_function"].get("getchar_ord", 0) + 1
+            if p:
+                spec_failures.append({"what": p, "function": "getchar_ord", "stdin": stdin, "convention": conv})
     for _ in range(250 if quick else 5000):
         f, args = gen_call(rng)
         for conv in ("stack", "reg"):
@@ -273,7 +345,8 @@ def correspondence(ctx, model_available=True):
                 "words; every library function in both conventions called from a generated caller on the real interpreter "
                 "with edge and random arguments (negative numbers, zero divisors, empty / equal / prefix / unequal strings, "
                 "out-of-range substring bounds) under random register contents: result vs an independent computation, "
-                "return to the caller, SP/FP restored, R1..R10 preserved (stack convention), malloc blocks disjoint",
+                "return to the caller, SP/FP restored, R1..R10 preserved (stack convention), malloc blocks disjoint, returned strings "
+                "inside their block; getchar_ord over several lines of standard input",
         "distribution": {"divmod_pairs": len(pairs), "divmod_model_agree": agree, "routines_compared": routines, **st},
         "samples": [{"function": "div", "args": [65530, 2]}],
         "disagreements": disagreements[:10], "spec_failures": spec_failures[:5],
